@@ -291,8 +291,14 @@ func (g *gen) schedule(s *server.Server) *call {
 		case 8:
 			switch g.rng.Intn(3) {
 			case 0:
-				cfg.LeaderSchedulePolicy = g.pick([]string{"count", "size", "bogus", ""})
-				add("leader-schedule-policy=in")
+				// anything but count/size makes pd's background statistics job panic (log.Fatal):
+				// on a running server only the legal values are used
+				cfg.LeaderSchedulePolicy = g.pick([]string{"count", "size"})
+				cl := "in"
+				if !g.running && g.rng.Intn(2) == 0 {
+					cfg.LeaderSchedulePolicy, cl = g.pick([]string{"bogus", "", "Count", "SIZE"}), "out:not-count-or-size"
+				}
+				add("leader-schedule-policy=" + cl)
 			case 1:
 				cfg.RegionScoreFormulaVersion = g.pick([]string{"v1", "v2", ""})
 				add("region-score-formula-version=in")
@@ -470,8 +476,12 @@ func (g *gen) pdServer(s *server.Server) *call {
 				add("flow-round-by-digit=out:min")
 			}
 		case 2:
-			cfg.KeyType = g.pick([]string{"table", "raw", "txn", "bogus"})
-			add("key-type=in")
+			cfg.KeyType = g.pick([]string{"table", "raw", "txn"})
+			cl := "in"
+			if !g.running && g.rng.Intn(3) == 0 {
+				cfg.KeyType, cl = g.pick([]string{"bogus", "", "RAW"}), "out:not-table-raw-txn"
+			}
+			add("key-type=" + cl)
 		case 3:
 			cfg.MaxResetTSGap = g.duration()
 			add("max-gap-reset-ts=in")
